@@ -497,3 +497,53 @@ Proof. intros E. each_size E; vm_compute; reflexivity. Qed.
 
 Theorem ones_sized_ok dbg size : size_ok size = true -> ones_sized dbg size = Ok (mask_of size).
 Proof. intros E. each_size E; destruct dbg; vm_compute; reflexivity. Qed.
+
+(* ================= packaged statements used by Properties/C09.v ================= *)
+
+Lemma le_be_positional_l : forall bs : list byte, le_val bs = le_sum bs /\ be_val bs = be_sum bs.
+Proof. intros bs. split; [apply le_val_is_sum|apply be_val_is_sum]. Qed.
+
+Lemma read_un_app_lt : forall (n : nat) (be : bool) (h t : list byte), length h = n ->
+  read_un n be (h ++ t) = Ok (val_sum be h, t) /\ val_sum be h < 256 ^ N.of_nat n.
+Proof.
+  intros n be h t H. split; [apply read_un_app; exact H|].
+  rewrite <- H. apply (val_sum_lt be h).
+Qed.
+
+Lemma fixed_write_read_l : forall (n : nat) (be : bool) (v : N) (r : list byte),
+  length (enc_un n be v) = n /\
+  read_un n be (enc_un n be v ++ r) = Ok (v mod 256 ^ N.of_nat n, r) /\
+  (v < 256 ^ N.of_nat n -> read_un n be (enc_un n be v ++ r) = Ok (v, r)).
+Proof.
+  intros n be v r. split; [apply enc_un_length|]. split.
+  - apply read_un_enc_un.
+  - apply read_un_enc_un_small.
+Qed.
+
+Lemma read_uint_full : forall (n : nat) (be : bool) (bs : list byte),
+  read_uint n be bs =
+  if (8 <? n)%nat then Panic
+  else if (length bs <? n)%nat then Err EUnexpectedEof
+  else Ok (val_sum be (firstn n bs), skipn n bs).
+Proof. intros n be bs. rewrite read_uint_exact, read_un_exact. reflexivity. Qed.
+
+Lemma sized_reads_l : forall (size : N) (be : bool) (bs : list byte),
+  read_address size be bs =
+    (if size_ok size then read_un (N.to_nat size) be bs else Err EUnsupportedAddressSize) /\
+  read_sized_offset size be bs =
+    (if size_ok size then read_un (N.to_nat size) be bs else Err EUnsupportedOffsetSize).
+Proof. intros. split; [apply read_address_exact|apply read_sized_offset_exact]. Qed.
+
+Lemma sized_reads_ok_l : forall (size : N) (be : bool) (bs : list byte) (v : N) (rest : list byte),
+  read_address size be bs = Ok (v, rest) \/ read_sized_offset size be bs = Ok (v, rest) ->
+  (size = 1 \/ size = 2 \/ size = 4 \/ size = 8) /\
+  exists h, bs = h ++ rest /\ N.of_nat (length h) = size /\ v = val_sum be h /\ v < 2 ^ (8 * size).
+Proof.
+  intros size be bs v rest [H|H].
+  - destruct (read_address_ok _ _ _ _ _ H) as (E & Hx). split; [apply size_ok_cases; exact E|exact Hx].
+  - destruct (read_sized_offset_ok _ _ _ _ _ H) as (E & Hx). split; [apply size_ok_cases; exact E|exact Hx].
+Qed.
+
+Lemma in_signed_iff_l : forall (bits : N) (v : Z),
+  in_signed bits v = true <-> (- Z.of_N (2 ^ (bits - 1)) <= v < Z.of_N (2 ^ (bits - 1)))%Z.
+Proof. intros bits v. unfold in_signed. rewrite andb_true_iff, Z.leb_le, Z.ltb_lt. reflexivity. Qed.
